@@ -8,7 +8,11 @@ minimum-norm `pinv` solution differs from Φ_true for some k.  Units: 8 crystals
 (plusminus auto/on/off, diagonal on/off, `is_symmetry=False`, distance 0.01/0.03), among them two crystals built for
 the purpose whose atoms sit on a mirror plane / a two-fold axis so that `_get_displacement_two` is exercised; thorough
 adds 9 geometries × all option products (105 units).  Quick 4 s, thorough 11 s.
-*Not built*: `get_displacement` on symbolic site-symmetry matrices.  *Outside*: harmonic models that are not
+Added later: **sitesym** — `get_displacement`, `_get_displacement_one/_two` and `is_minus_displacement` on
+symbolic integer matrices (identity + up to 3 matrices with entries in {−1,0,1}, decision-replay forking, NIA): on
+every path a triple of images of the returned directions is linearly independent and the minus flag is right; a model
+is reported only if a *real* site-symmetry group fails too — **sitesym_groups** evaluates both statements on 516 integer
+rotation groups (point groups of all 530 Hall settings in spglib's database and their ≤2-generator subgroups).  *Outside*: harmonic models that are not
 pair-spring models (the invariant subspace is larger than the spring family), ALM/symfc, rounding."""
 AS["C02"] = """**As built** (`checks/c02.py`).  As planned for (a) and (b); q stays concrete here (symbolic q is used
 in C12, where the derivative needs it).  The kernel is entered through the *real* `run_dynamical_matrix_solver_c` and
